@@ -33,6 +33,14 @@ except Exception:  # pragma: no cover
 MODELS = {}
 
 
+class EnumSeq:
+    """enumerate(<list of symbolic length>) -- only consumed by a for loop with an invariant."""
+
+    def __init__(self, seq, start):
+        self.seq = seq
+        self.start = start
+
+
 def _I():
     from . import interp
     return interp
@@ -270,6 +278,9 @@ def _list(it, x=()):
 def _tuple(it, x=()):
     if isinstance(x, GList):
         return x
+    if isinstance(x, SSeq):
+        # tuple of a symbolic-length list: an (immutable by convention) copy
+        return SSeq(x.n, x.arr, x.elem)
     return tuple(it.iterate(x))
 
 
@@ -312,6 +323,8 @@ def _range(it, *a):
 
 @model(enumerate)
 def _enumerate(it, xs, start=0):
+    if isinstance(xs, SSeq):
+        return EnumSeq(xs, start)
     g = it.iterate_guarded(xs)
     if all(x is True for x, _ in g):
         return [(i + start, v) for i, (_, v) in enumerate(g)]
